@@ -2,6 +2,7 @@ package main
 
 import (
 	"fmt"
+	"go/constant"
 	"go/types"
 	"os"
 	"sort"
@@ -34,6 +35,7 @@ type World struct {
 	globalInvs map[string]*Clause
 	immutable  map[string]bool
 	macros     map[string]string
+	filterNames map[*ssa.Function]string
 }
 
 func shortName(s string) string {
@@ -89,6 +91,7 @@ func loadWorld(dir string) (*World, error) {
 		w.allFns = append(w.allFns, fn)
 	}
 	sort.Slice(w.allFns, func(i, j int) bool { return w.allFns[i].String() < w.allFns[j].String() })
+	w.resolveRegistrations()
 	return w, nil
 }
 
@@ -391,4 +394,45 @@ func rangeAssume(t types.Type, x Term) Term {
 		return and(le(intLit(0), x), le(x, mk(SInt, "18446744073709551615")))
 	}
 	return tTrue
+}
+
+// resolveRegistrations gives structural names to functions registered by name:
+// `filter "slice"` is the function value passed to AddFilter("slice", .) inside
+// filters.AddStandardFilters (robust against reordering of the closures).
+func (w *World) resolveRegistrations() {
+	fn := w.fns["filters.AddStandardFilters"]
+	if fn == nil {
+		return
+	}
+	for _, b := range fn.Blocks {
+		for _, in := range b.Instrs {
+			call, ok := in.(*ssa.Call)
+			if !ok || !call.Call.IsInvoke() || call.Call.Method.Name() != "AddFilter" || len(call.Call.Args) != 2 {
+				continue
+			}
+			c, ok := call.Call.Args[0].(*ssa.Const)
+			if !ok || c.Value == nil {
+				continue
+			}
+			name := constant.StringVal(c.Value)
+			mi, ok := call.Call.Args[1].(*ssa.MakeInterface)
+			if !ok {
+				continue
+			}
+			var target *ssa.Function
+			switch x := mi.X.(type) {
+			case *ssa.Function:
+				target = x
+			case *ssa.MakeClosure:
+				target, _ = x.Fn.(*ssa.Function)
+			}
+			if target != nil {
+				w.fns[fmt.Sprintf("filter %q", name)] = target
+				if w.filterNames == nil {
+					w.filterNames = map[*ssa.Function]string{}
+				}
+				w.filterNames[target] = name
+			}
+		}
+	}
 }
